@@ -255,7 +255,7 @@ def run_explore(shard, mon, S, p):
     sched.install()
     rng = env.rng("C14", shard["_name"])
     traces = set()
-    budget = sz["budget"] if gran == "line" else max(2000, sz["budget"] // 3)
+    budget = sz["budget"] if gran == "line" else max(2000, sz["budget"] // 5)
     def prio(x):
         return 0 if x[0].startswith(("multi", "algo-unknown", "shared:", "natb")) else 1 if x[0].startswith("algo") else 2 if x[0].startswith("shared") else 3 if x[0].startswith(("api", "nat")) else 4
 
